@@ -53,25 +53,33 @@ def _rule_patterns(lexer: Any) -> List[tuple]:
     return rules
 
 
-def _compile_screen(embed: Callable[[str], str], must: str) -> Callable[[str], Optional[str]]:
-    """must: 'family' (only JSONPathError may escape) | 'reject' (must be refused with a JSONPathError) | 'accept'."""
+def _compile_screen(embed: Callable[[str], str], must: str, want_shape: Optional[Callable[[str], Any]] = None) -> Callable[[str], Optional[str]]:
+    """must: 'family' (only JSONPathError may escape) | 'reject' (must be refused with a JSONPathError) | 'accept'.
+    want_shape(w): when given, an accepted query must compile to exactly that structure (not merely compile)."""
 
     def screen(w: str) -> Optional[str]:
         import jsonpath
 
+        from vlib import oracle
+
         q = embed(w)
         try:
-            jsonpath.JSONPathEnvironment().compile(q)
+            c = jsonpath.JSONPathEnvironment().compile(q)
         except jsonpath.JSONPathError:
             return f"{q!r} is rejected" if must == "accept" else None
         except Exception as e:  # noqa: BLE001
             return f"{q!r} raises {type(e).__name__}: {e}"
-        return f"{q!r} compiles" if must == "reject" else None
+        if must == "reject":
+            return f"{q!r} compiles"
+        if want_shape is not None and oracle.shape(c) != want_shape(w):
+            return f"{q!r} compiles to {oracle.shape(c)!r}, not to {want_shape(w)!r}"
+        return None
 
     return screen
 
 
-def _obl(oid: str, build: Callable[[], Any], embed: Callable[[str], str], must: str, fn: str, note: str = "") -> Obligation:
+def _obl(oid: str, build: Callable[[], Any], embed: Callable[[str], str], must: str, fn: str, note: str = "",
+         want_shape: Optional[Callable[[str], Any]] = None) -> Obligation:
     def run() -> Dict[str, Any]:
         from vlib import rx
 
@@ -79,11 +87,12 @@ def _obl(oid: str, build: Callable[[], Any], embed: Callable[[str], str], must: 
             lang, minus = build()
         except rx.Untranslatable as e:
             return {"status": "inconclusive", "detail": f"pattern uses an untranslatable construct: {e}"}
-        res = rx.difference_witnesses(lang, minus, _compile_screen(embed, must), max_shapes=150)
+        res = rx.difference_witnesses(lang, minus, _compile_screen(embed, must, want_shape), max_shapes=150)
         if res["status"] == "violated":
             q = embed(res["witness"])
+            call = f"{fn}({q!r})" if want_shape is None else f"{fn}({q!r}, {want_shape(res['witness'])!r})"
             res["replay"] = {"harness": "harness/c06.py" if fn == "only_family" else "harness/c07.py", "fn": fn, "params": {},
-                             "call": f"{fn}({q!r})"}
+                             "call": call}
         return res
 
     return Obligation(oid, run, kind="z3-regex", note=note)
@@ -168,6 +177,37 @@ def c07_obligations() -> List[Obligation]:
         _, lx = _live()
         return rx.rfc_name_shorthand(), rx.to_z3(lx.key_pattern)
 
+    def shorthand_whole():
+        # names the key rule matches only in part: L(rfc shorthand) minus L(key rule) is empty by the obligation above, so ask
+        # for names whose *proper prefix* is the longest key-rule match: rfc names that extend a key-rule match by a character
+        # the key rule's continuation class does not contain.
+        _, lx = _live()
+        key = rx.to_z3(lx.key_pattern)
+        return rx.rfc_name_shorthand(), key
+
+    def shorthand_after_ddot():
+        # shorthand names that some rule placed before BARE_PROPERTY can start to match (it would win the ordered choice)
+        _, lx = _live()
+        rules = _rule_patterns(lx)
+        names = [n for n, _ in rules]
+        stealers = []
+        for n, pat in rules[: names.index("BARE_PROPERTY")]:
+            if n in ("DOT_PROPERTY", "DDOT"):
+                continue
+            try:
+                r = rx.to_z3(pat)
+            except rx.Untranslatable:
+                continue
+            # a name that *is* a match of the earlier rule, or such a match followed by one more name character
+            stealers.append(z3.Concat(r, z3.Option(rx.lit("x"))))
+        stolen = z3.Intersect(rx.rfc_name_shorthand(), z3.Union(*stealers))
+        reserved = z3.Concat(z3.Union(*[rx.lit(wd) for wd in (
+            "and", "or", "not", "in", "contains", "true", "false", "null", "nil", "none", "undefined", "missing",
+            "True", "False", "Null", "Nil", "None")]), z3.Star(rx.ALLCHAR))
+        # every shorthand name an earlier rule could start to match (other than reserved-word-led ones) still compiles
+        # to a descendant segment with that name
+        return stolen, reserved
+
     def blank_in_skip():
         return z3.Plus(rx.chars(" \t\n\r")), rule("SKIP")
 
@@ -195,6 +235,12 @@ def c07_obligations() -> List[Obligation]:
         _obl("R:rfc-int-in-INT-rule", rfc_int_in_rule, lambda w: f"$[{w}]", "family", "only_family"),
         _obl("R:rfc-number-in-INT|FLOAT", rfc_number_in_rules, lambda w: f"$[?@.a == {w}]", "accept", "accepts"),
         _obl("R:rfc-member-name-shorthand-in-key-rule", shorthand_in_key, lambda w: f"$.{w}", "accept", "accepts"),
+        _obl("R:shorthand-name-is-one-name-selector", shorthand_whole, lambda w: f"$.{w}", "accept", "compiles_to",
+             "a shorthand name is consumed whole by the key rule: it compiles to a single name selector with that name",
+             want_shape=lambda w: ("query", False, (("list", (("name", w),)),))),
+        _obl("R:descendant-shorthand-name", shorthand_after_ddot, lambda w: f"$..{w}", "accept", "compiles_to",
+             "after '..' a shorthand name (not a reserved word) compiles to a descendant segment with that name",
+             want_shape=lambda w: ("query", False, (("desc",), ("list", (("name", w),))))),
         _obl("R:rfc-blank-space-in-SKIP", blank_in_skip, lambda w: f"${w}.a", "accept", "accepts"),
         _obl("R:rfc-slice-selector-in-slice-rule", slice_in_rule, lambda w: f"$[{w}]", "family", "only_family"),
         _obl("R:index-branch-accepts-only-rfc-int", index_accepts_only_rfc_int, lambda w: f"$[{w}]", "reject", "rejects",
